@@ -363,47 +363,53 @@ func splitPathImpl(expr string) []string {
 		return out
 	}
 
-	// Full parsing with bracket support
-	var b strings.Builder
-	b.Grow(len(expr) + 8)
+	// Full parsing with bracket support. Parts are collected directly: the content of a
+	// quoted bracket step is one key, taken verbatim (it may contain dots, brackets or
+	// blanks), everything else is split on dots and trimmed.
+	var out []string
+	addDotted := func(seg string) {
+		for _, p := range strings.Split(seg, ".") {
+			if p = strings.TrimSpace(p); p != "" {
+				out = append(out, p)
+			}
+		}
+	}
+	start := 0 // start of the pending dotted segment
 	i := 0
 	for i < len(expr) {
-		ch := expr[i]
-		if ch == '[' {
-			j := i + 1
-			for j < len(expr) && expr[j] != ']' {
-				j++
-			}
-			if j >= len(expr) {
-				b.WriteByte(ch)
-				i++
-				continue
-			}
-			inside := strings.TrimSpace(expr[i+1 : j])
-			if len(inside) >= 2 && ((inside[0] == '\'' && inside[len(inside)-1] == '\'') || (inside[0] == '"' && inside[len(inside)-1] == '"')) {
-				inside = inside[1 : len(inside)-1]
-			}
-			if inside != "" {
-				b.WriteByte('.')
-				b.WriteString(inside)
-			}
-			i = j + 1
-		} else {
-			b.WriteByte(ch)
+		if expr[i] != '[' {
 			i++
-		}
-	}
-
-	builtStr := b.String()
-	parts := strings.Split(builtStr, ".")
-	// Sanitize in-place to avoid extra allocation
-	out := parts[:0]
-	for _, p := range parts {
-		p = strings.TrimSpace(p)
-		if p == "" {
 			continue
 		}
-		out = append(out, p)
+		j := i + 1
+		if q := strings.TrimLeft(expr[j:], " \t"); len(q) > 0 && (q[0] == '\'' || q[0] == '"') {
+			// quoted key: find the closing quote followed by ]
+			open := len(expr) - len(q)
+			if k := strings.IndexByte(expr[open+1:], q[0]); k >= 0 {
+				closeQuote := open + 1 + k
+				rest := strings.TrimLeft(expr[closeQuote+1:], " \t")
+				if len(rest) > 0 && rest[0] == ']' {
+					addDotted(expr[start:i])
+					out = append(out, expr[open+1:closeQuote])
+					i = len(expr) - len(rest) + 1
+					start = i
+					continue
+				}
+			}
+		}
+		for j < len(expr) && expr[j] != ']' {
+			j++
+		}
+		if j >= len(expr) {
+			// unbalanced bracket: keep it as part of the dotted text
+			i++
+			continue
+		}
+		addDotted(expr[start:i])
+		addDotted(expr[i+1 : j])
+		i = j + 1
+		start = i
 	}
+	addDotted(expr[start:])
 	return out
 }
